@@ -44,6 +44,15 @@ theorem second_cycle (ni : PhaseRec) (e : Derived) (m : MapRec) (hwf : H5WF genT
     read_write_main genTables ni e { m with props := ps } (H5WF_perm genTables ni m ps hp hwf) hid
   exact ⟨t, _, t₁, ps₁, hw, hr, hw₁, hp₁.trans hp, hr₁⟩
 
+/-- the conjunct `phases_consistent` of `H5WF` in declarative form: a phase list consisting of the `not_indexed`
+phase (exactly as `add_not_indexed` creates it, present iff some point has phase id -1) followed by phases with
+strictly increasing non-negative ids that are exactly the ids occurring in the data is kept by the constructor -/
+theorem phases_consistent_of (ni : PhaseRec) (hni : ni.id = -1) (ids : List Int) (rp : List PhaseRec) (has : Bool)
+    (hs : (rp.map (·.id)).Pairwise (· < ·)) (hpos : ∀ p ∈ rp, -1 < p.id)
+    (hm : ∀ a, a ∈ ids ↔ (a = -1 ∧ has = true) ∨ a ∈ rp.map (·.id)) :
+    reconcileRec ni ids ((if has then [ni] else []) ++ rp) = some ((if has then [ni] else []) ++ rp) :=
+  reconcileRec_consistent ni hni ids rp has hs hpos hm
+
 /-- **The generic codec** (`dict2hdf5group` → file → `hdf5group2dict`) on *any* nested dict without `None`:
 it sorts every level by key and applies the two lossy leaf rules (`normVal`: an array whose first axis has
 length 1 loses that axis, strings are re-decoded), nothing else. -/
